@@ -33,3 +33,122 @@ def diff(Fa, Fb):
     only_b = sorted(set(tb) - set(ta))
     differing = sorted(k for k in set(ta) & set(tb) if ta[k] != tb[k])
     return only_a, only_b, differing, len(set(ta) & set(tb))
+
+
+# ---- differences that are only the value of `cfg!(debug_assertions)` ------------------------------------------------------------
+def _scrub_bool_consts(x):
+    if isinstance(x, dict):
+        if set(x.keys()) >= {"ty", "v"} and x.get("ty") == "bool":
+            return {"ty": "bool"}
+        return {k: _scrub_bool_consts(v) for k, v in x.items() if k not in DROP}
+    if isinstance(x, list):
+        return [_scrub_bool_consts(v) for v in x]
+    return scrub(x) if isinstance(x, str) else x
+
+
+def _uses(x, acc):
+    if isinstance(x, dict):
+        if "l" in x and isinstance(x["l"], int):
+            acc.add(x["l"])
+        for v in x.values():
+            _uses(v, acc)
+    elif isinstance(x, list):
+        for v in x:
+            _uses(v, acc)
+
+
+def _reach(blocks, start):
+    seen, st = set(), [start]
+    while st:
+        b = st.pop()
+        if b in seen or b is None:
+            continue
+        seen.add(b)
+        t = blocks[b]["t"]
+        k = t["k"]
+        if k == "goto":
+            st.append(t["t"])
+        elif k == "switch":
+            st += list(t["ts"]) + [t["otherwise"]]
+        elif k in ("call", "assert", "drop"):
+            st.append(t.get("t"))
+    return seen
+
+
+def debug_only_difference(fa, fd, is_pure_call):
+    """fa / fd: the same function in the build without / with debug assertions.  True (with the set of blocks that only the debug
+    build executes) if the two bodies are identical up to the value of boolean constants that are switched on in place - which is
+    what `cfg!(debug_assertions)` (debug_assert!) compiles to - and the blocks only one of the builds executes have no effect
+    other than on their own temporaries: what remains to be shown is that no panic in the debug-only blocks can fire."""
+    ba, bd = fa["body"], fd["body"]
+    if json.dumps(_scrub_bool_consts(ba), sort_keys=True) != json.dumps(_scrub_bool_consts(bd), sort_keys=True):
+        return False, "bodies differ in more than boolean constants", set()
+    A, D = ba["blocks"], bd["blocks"]
+    only_d, only_a = set(), set()
+    for i, (x, y) in enumerate(zip(A, D)):
+        if json.dumps(scrub(x), sort_keys=True) == json.dumps(scrub(y), sort_keys=True):
+            continue
+        # the differing statements assign a boolean constant to a local the block then switches on
+        t = y["t"]
+        if t["k"] != "switch" or json.dumps(scrub(x["t"]), sort_keys=True) != json.dumps(scrub(t), sort_keys=True):
+            return False, "block %d differs in its terminator" % i, set()
+        dl = (t["d"].get("m") or t["d"].get("c") or {}).get("l")
+        va = vd = None
+        for sa, sd in zip(x["s"], y["s"]):
+            if json.dumps(scrub(sa), sort_keys=True) == json.dumps(scrub(sd), sort_keys=True):
+                continue
+            ok = sa["k"] == "assign" and sd["k"] == "assign" and sa["lhs"] == sd["lhs"] and sa["lhs"].get("l") == dl and not sa["lhs"].get("p") and \
+                sa["rv"]["k"] == "use" and sd["rv"]["k"] == "use" and "k" in sa["rv"]["op"] and "k" in sd["rv"]["op"]
+            if not ok:
+                return False, "block %d differs in a statement that is not the constant of its own switch" % i, set()
+            va, vd = sa["rv"]["op"]["k"].get("v"), sd["rv"]["op"]["k"].get("v")
+        if va is None or vd is None or va == vd:
+            return False, "block %d: no differing constant found" % i, set()
+
+        def target(v):
+            tg = t["otherwise"]
+            for val, b_ in zip(t["vals"], t["ts"]):
+                if val == v:
+                    tg = b_
+            return tg
+        ra, rd = _reach(D, target(va)), _reach(D, target(vd))
+        only_d |= rd - ra
+        only_a |= ra - rd
+    # the blocks only one build executes: assignments to locals nobody else reads, pure calls, tests, diverging calls
+    for region in (only_d, only_a):
+        assigned = set()
+        for b in region:
+            for s_ in D[b]["s"]:
+                if s_["k"] == "assign":
+                    if s_["lhs"].get("p"):
+                        return False, "block %d stores through a projection" % b, set()
+                    assigned.add(s_["lhs"]["l"])
+                elif s_["k"] not in ("storagelive", "storagedead", "nop", "fakeread", "retag", "ascribe", "coverage", "constevalcounter"):
+                    return False, "block %d has a `%s` statement" % (b, s_["k"]), set()
+            t = D[b]["t"]
+            if t["k"] == "call" and t.get("t") is not None:
+                if not is_pure_call(t):
+                    return False, "block %d calls something that is not known to be pure" % b, set()
+                dl_ = (t.get("dest") or {})
+                if dl_.get("p"):
+                    return False, "block %d stores a call result through a projection" % b, set()
+                assigned.add(dl_.get("l"))
+            elif t["k"] == "drop":
+                return False, "block %d drops a value" % b, set()
+        read_elsewhere = set()
+        for b, blk in enumerate(D):
+            if b in region:
+                continue
+            for s_ in blk["s"]:
+                if s_["k"] == "assign":
+                    _uses(s_["rv"], read_elsewhere)
+                    if s_["lhs"].get("p"):
+                        _uses(s_["lhs"], read_elsewhere)
+            tt = dict(blk["t"])
+            tt.pop("dest", None)
+            _uses(tt, read_elsewhere)
+        unit = {i for i, l in enumerate(bd["locals"]) if l.get("ty") == "()"}
+        leak = (assigned & read_elsewhere) - unit - {None}
+        if leak:
+            return False, "locals %s assigned in a one-build-only block are read outside it" % sorted(leak), set()
+    return True, "identical up to cfg!(debug_assertions) constants; %d debug-only blocks without effects" % len(only_d), only_d
